@@ -1620,7 +1620,7 @@ BitReader StringReader::subx_bits(size_t offset, size_t size) const {
 }
 
 const char* StringReader::peek(size_t size) {
-  if (this->offset + size <= this->length) {
+  if ((this->offset <= this->length) && (size <= this->length - this->offset)) {
     return reinterpret_cast<const char*>(this->data + this->offset);
   }
   throw out_of_range("not enough data to read");
